@@ -73,6 +73,8 @@ func build(expr logql.Expr, sel SampleSelector, params EvalParams) (_ StepIterat
 			if err != nil {
 				return nil, err
 			}
+			defer closeOnError(right)
+
 			return LiteralBinOp(right, expr, lit.Value, true)
 		}
 		if lit, ok := logql.UnparenExpr(expr.Right).(*logql.LiteralExpr); ok {
@@ -80,6 +82,8 @@ func build(expr logql.Expr, sel SampleSelector, params EvalParams) (_ StepIterat
 			if err != nil {
 				return nil, err
 			}
+			defer closeOnError(left)
+
 			return LiteralBinOp(left, expr, lit.Value, false)
 		}
 
